@@ -43,7 +43,7 @@ ITEM_HARNESS = {
     'sourceview::SourceView': ['sourceview'], 'sourceview::Lines': ['sourceview'], 'sourceview::SourceView::from_string': ['sourceview'], 'sourceview::SourceView::clone': ['sourceview'],
     'sourceview::SourceView::get_original_function_name': ['function_name'], 'sourceview::SourceView::rev_token_iter': ['function_name'], 'sourceview::RevTokenIter::next': ['function_name'], 'sourceview::RevTokenIter': ['function_name'],
     'js_identifiers::is_valid_start': ['function_name'], 'js_identifiers::is_valid_continue': ['function_name'], 'js_identifiers::strip_identifier': ['function_name'], 'js_identifiers::is_valid_javascript_identifier': ['function_name'], 'js_identifiers::get_javascript_token': ['function_name'],
-    'encoder::SourceMap::as_raw_sourcemap': ['raw_keys', 'roundtrip', 'root_setters'], 'encoder::SourceMapIndex::as_raw_sourcemap': ['roundtrip', 'raw_keys'], 'encoder::DecodedMap::as_raw_sourcemap': ['roundtrip'], 'hermes::SourceMapHermes::as_raw_sourcemap': ['roundtrip', 'hermes_scope'], 'types::NameIter::next': ['raw_keys', 'roundtrip'], 'types::SourceMap::names': ['raw_keys'], 'types::SourceMapSection::get_url': ['roundtrip'],
+    'encoder::SourceMap::as_raw_sourcemap': ['raw_keys', 'roundtrip', 'root_setters'], 'encoder::SourceMapIndex::as_raw_sourcemap': ['roundtrip', 'raw_keys'], 'encoder::DecodedMap::as_raw_sourcemap': ['roundtrip'], 'hermes::SourceMapHermes::as_raw_sourcemap': ['roundtrip', 'hermes_scope'], 'types::NameIter::next': ['raw_keys', 'roundtrip'], 'types::SourceIter::next': ['roundtrip', 'builder_model'], 'types::SourceContentsIter::next': ['roundtrip', 'raw_keys'], 'types::SourceMap::sources': ['roundtrip'], 'types::SourceMap::source_contents': ['roundtrip'], 'builder::SourceMapBuilder::set_source': ['builder_model'], 'types::SourceMap::names': ['raw_keys'], 'types::SourceMapSection::get_url': ['roundtrip'],
     'types::SourceMap::to_data_url': ['discover'], 'decoder::decode': ['header'], 'decoder::decode_slice': ['header'], 'decoder::decode_data_url': ['header', 'discover'], 'detector::is_sourcemap_impl': ['header'], 'detector::is_sourcemap_slice_impl': ['header'], 'detector::is_sourcemap': ['header', 'discover'], 'detector::is_sourcemap_slice': ['header', 'discover'], 'decoder::DATA_PREAMBLE': ['discover'], 'decoder::DATA_PREAMBLE_CHARSET': ['discover'],
     'decoder::decode_common': ['decode_document'], 'decoder::decode_index': ['index_flatten', 'decode_document'],
 }
